@@ -403,7 +403,9 @@ def walk_curve(connection, kind, reference_level=None, rng=None, cache=None):
     for s in stored:
         lv = byint.get(s, {})
         r = math.fsum(stored[s] + c - avg[k] for k, c in lv.items())
-        sc = math.fsum(abs(stored[s] + c) + abs(avg[k]) for k, c in lv.items()) + 1.0
+        # magnitudes of what is added up, not of the sum: next to the origin of the master curve the
+        # aligned value offset + crossing is the small difference of two large numbers
+        sc = math.fsum(abs(stored[s]) + abs(c) + abs(avg[k]) for k, c in lv.items()) + 1.0
         worst = max(worst, abs(r) / sc)
         if abs(r) > 1e-9 * sc * max(1, len(lv)) ** 0.5 + abs_tol:
             findings.append(('C05', kind + '-residuals-of-an-interval-do-not-sum-to-zero',
